@@ -349,12 +349,12 @@ class Exec:
             a, b = self.split_args(m.group(2))
             va, vb = self.operand(env, a), self.operand(env, b)
             if self.ctor:
-                ma, mb = re.match(r"^k_(\d+)_usize$", va), re.match(r"^k_(\d+)_usize$", vb)
-                if ma and mb:
+                ma, mb = re.match(r"^k_(\d+)_(usize|u64)$", va), re.match(r"^k_(\d+)_(usize|u64)$", vb)
+                if ma and mb and ma.group(2) == mb.group(2):
                     x, y = int(ma.group(1)), int(mb.group(1))
                     o = m.group(1)
                     if o in ("AddWithOverflow", "Add"):
-                        r = self._konst("%d_usize" % (x + y))
+                        r = self._konst("%d_%s" % (x + y, ma.group(2)))
                         return "(%s %s (b2v false))" % (self.smt.fun("C_tuple2", 2), r) if o == "AddWithOverflow" else r
                     cmpr = {"Eq": x == y, "Ne": x != y, "Lt": x < y, "Le": x <= y, "Gt": x > y, "Ge": x >= y}
                     if o in cmpr:
